@@ -118,7 +118,13 @@ func runFresh(t *testing.T, mc *verifsim.MapConfig, progs ...string) (last resul
 			for _, src := range progs {
 				env := hx.NewEnv()
 				restore := env.Capture()
-				_, _, ctl := env.Run(src, "/verif/c20/prog.php")
+				var ctl data.Control
+				if strings.HasPrefix(src, "@file:") {
+					// a corpus file, loaded from its path like `origami file.php` does
+					_, ctl = env.VM.LoadAndRun(filepath.Join(root(), "tests", strings.TrimPrefix(src, "@file:")))
+				} else {
+					_, _, ctl = env.Run(src, "/verif/c20/prog.php")
+				}
 				if data.FlushAllBuffersFn != nil {
 					data.FlushAllBuffersFn()
 				}
@@ -325,6 +331,11 @@ func execPair(t *testing.T, w *W) *hx.Outcome {
 		o.Discarded = true
 		return o
 	}
+	if strings.Contains(w.Src, "basics_fn") && (alone.Ctl != "" || alone.Throws != "" || !strings.Contains(alone.Out, "idx=")) {
+		// the fixed probe program must run to its end on a clean VM, or it probes nothing
+		o.Violate("C20/harness-setup", "the basics probe does not run to completion on a fresh VM: "+alone.String())
+		return o
+	}
 	if alone.String() != after.String() {
 		// name the first probe line that differs
 		what := "control-flow"
@@ -367,6 +378,35 @@ var (
 )
 
 func root() string { return filepath.Dir(os.Args[0]) }
+
+var corpusAll []string
+
+// loadCorpusAll: every script of tests/ (also the time/IO-dependent ones): good
+// enough as program A of a pair, whose own output is never compared.
+func loadCorpusAll() []string {
+	if corpusAll != nil {
+		return corpusAll
+	}
+	corpusAll = []string{}
+	base := filepath.Join(root(), "tests")
+	filepath.Walk(base, func(p string, info os.FileInfo, err error) error {
+		if err != nil || info.IsDir() || !strings.HasSuffix(p, ".php") {
+			return nil
+		}
+		rel, _ := filepath.Rel(base, p)
+		b, err := os.ReadFile(p)
+		if err != nil || rel == "run_tests.php" || noChildRe.Match(b) {
+			return nil
+		}
+		corpusAll = append(corpusAll, rel)
+		return nil
+	})
+	sort.Strings(corpusAll)
+	return corpusAll
+}
+
+// scripts that would stall or need a network/terminal when run as program A
+var noChildRe = regexp.MustCompile(`(?i)->run\(|new\s+Server|Signal::|readline|STDIN|sleep\s*\(\s*[1-9]\d|curl_|fsockopen|proc_open|Loop::`)
 
 func loadCorpus() []string {
 	if corpus != nil {
